@@ -57,7 +57,7 @@ RULE = ("breaker histories of 20-140 events over 1-3 registry names through the 
         "ZScore RPop Get Incr ZRank x {ok, cancelled ctx, redis.Nil, WRONGTYPE}) against miniredis, 200 calls each; server "
         "StreamBreakerInterceptor like the unary one; per run 6 fixed (per side: expiring caller deadline x120 after <= 5 cancelled calls; cancelled-only) + 12 random mixed streams (thorough 150) of 40-160 calls through the client / server "
         "unary / server stream interceptor with live, expired-deadline and cancelled caller contexts and panics; "
-        "8 identity streams (two full method names sharing a base name: Ledger/Get vs Profile/Get, User/Watch vs health Watch; three HTTP routes GET/POST /a/get, GET /b/get: one name keeps failing, the others only succeed) and 4 engine streams (api/engine.go bindRoute chain, Config.Timeout 0 and > 0, a handler panicking on every request); sustained interceptor streams for every gRPC code 0..16 and 17, 20, 99; registry stream: 6 cases (thorough 40) x 200 fresh names, G = 2..8 goroutines making "
+        "8 identity streams (two full method names sharing a base name: Ledger/Get vs Profile/Get, User/Watch vs health Watch; three HTTP routes GET/POST /a/get, GET /b/get: one name keeps failing, the others only succeed) and 4 engine streams (api/engine.go bindRoute chain, Config.Timeout 0 and > 0, a handler panicking on every request); sustained interceptor streams for every gRPC code 0..16 and 17, 20, 99; 3 concurrent-draw cases (64 / 8-32 goroutines inside accept at once on an open breaker with the first draw held inside Proba.TrueOnProba, every draw coin 0; one closed breaker); engine streams also carry clients disconnecting mid-flight (request context cancelled while the route runs: 499 under a timeout handler); registry stream: 6 cases (thorough 40) x 200 fresh names, G = 2..8 goroutines making "
         "their first use of the name together through Get / Do / DoWithAcceptable with the all-miss interleaving forced "
         "(driver holds the write lock until all are parked in RLock), then 50 failures through the first handle and probes "
         "through the last handle and through Do(name); non-trivial = a history with at least one rejection and "
@@ -317,10 +317,10 @@ def gen_engine(rng, side):
             calls.append(rng.choice([[4, 0], [5, 0], [7, 0], [8, 0], [9, 0]]) + [0])
     elif shape < 0.8:
         for _ in range(rng.randint(80, 140)):
-            calls.append(rng.choice([[0, 200], [0, 404], [0, 499], [1, 0], [2, 0], [0, 301]]) + [0])
+            calls.append(rng.choice([[0, 200], [0, 404], [0, 499], [1, 0], [2, 0], [0, 301], [10, 0], [10, 0]]) + [0])
     else:
         for _ in range(rng.randint(60, 140)):
-            calls.append(rng.choice([[0, 200], [0, 500], [4, 0], [1, 0], [0, 502], [2, 0]]) + [0])
+            calls.append(rng.choice([[0, 200], [0, 500], [4, 0], [1, 0], [0, 502], [2, 0], [10, 0]]) + [0])
     return {"kind": "m", "side": side, "calls": calls, "timeout": 0 if side == 3 else rng.choice([50, 3000])}
 
 
@@ -340,6 +340,9 @@ def mixed_cases(rng, tier):
         # the engine's own chain: a handler that panics on every request (every run, both timeout settings)
         fixed.append({"kind": "m", "side": side, "timeout": 0 if side == 3 else 3000,
                       "calls": [[0, 200, 0]] * rng.randint(0, 4) + [[4 + (i % 2), 0, 0] for i in range(120)]})
+        # clients disconnecting mid-flight, many in a row, on a healthy route: never cut off
+        fixed.append({"kind": "m", "side": side, "timeout": 0 if side == 3 else 3000,
+                      "calls": [[0, 200, 0]] * rng.randint(0, 3) + [[10, 0, 0]] * rng.randint(30, 60) + [[0, 200, 0]] * 10})
         # ... and one aborting every request with the sentinel http.ErrAbortHandler (what ReverseProxy raises), panic(nil), runtime errors
         fixed.append({"kind": "m", "side": side, "timeout": 0 if side == 3 else 3000,
                       "calls": [[0, 200, 0]] * rng.randint(0, 4) + [[8, 0, 0]] * 110})
@@ -358,8 +361,18 @@ def mixed_cases(rng, tier):
     return fixed + [gen_mixed(rng, i % 3) for i in range(k)]
 
 
+def conc_cases(rng, tier):
+    """concurrent draws: g goroutines inside accept() of an open breaker at once (first draw held inside Proba.TrueOnProba),
+    every draw says drop; plus one closed breaker (fails <= 5: no draw, everybody let in)"""
+    out = [{"kind": "c", "g": 64, "fails": 50}, {"kind": "c", "g": rng.choice([8, 16, 32]), "fails": rng.randint(7, 40)},
+           {"kind": "c", "g": rng.choice([4, 8]), "fails": rng.randint(0, 5)}]
+    if tier == "thorough":
+        out += [{"kind": "c", "g": rng.choice([2, 8, 64, 128]), "fails": rng.randint(0, 80)} for _ in range(20)]
+    return out
+
+
 def generate(rng, tier, n):
-    cases = (pred_cases(rng, tier) if tier in ("quick", "thorough", "search") else []) + reg_cases(rng, tier) + mixed_cases(rng, tier)
+    cases = (pred_cases(rng, tier) if tier in ("quick", "thorough", "search") else []) + reg_cases(rng, tier) + mixed_cases(rng, tier) + conc_cases(rng, tier)
     while len(cases) < n:
         cases.append(gen_history(rng))
     return cases
@@ -386,6 +399,7 @@ def drive(cases, tier):
     logs = []
     groups = [("b", None, "./lib/breaker"), ("h", None, "./api/handler")] + [("p", w, PKG[w]) for w in sorted(PKG)]
     groups.append(("r", None, "./lib/breaker"))
+    groups.append(("c", None, "./lib/breaker"))
     groups += [("m", 0, "./rpc/internal/clientinterceptors"), ("m", 1, "./rpc/internal/serverinterceptors"), ("m", 3, "./api"),
                ("m", 5, "./rpc/internal"), ("m", 6, "./rpc/internal")]
     mgroup = {0: 0, 1: 1, 2: 1, 3: 3, 4: 3, 5: 5, 6: 6}
@@ -401,6 +415,8 @@ def drive(cases, tier):
                                                "./rpc/internal/serverinterceptors", "./rpc/internal/clientinterceptors", "./api", "./rpc/internal", "./api/httpc") else "^TestVerifDriver$"
         if kind == "r":
             run = "^TestVerifDriverReg$"
+        if kind == "c":
+            run = "^TestVerifDriverConc$"
         if kind == "m" and which == 6:
             run = "^TestVerifDriverC01Srv$"
         o, lg = run_driver(pkg, [wire(cases[i]) for i in idx], name="C01%s%s_%s" % (kind, "" if which is None else which, tier),
@@ -428,8 +444,11 @@ OUT = ["OK", "AcceptableErr", "UnacceptableErr", "Panics", "PanicsNil", "InnerUn
 
 
 def encode(case, obs):
+    if case["kind"] == "c":
+        return "CCase %s %s %s" % (cZ(case["g"]), cZ(case["fails"]), cZ(obs.get("let_in", -1)))
     if case["kind"] == "m":
-        calls = [cpair(cnat(c[0]), cZ(c[1]), cnat(c[2])) for c in case["calls"]]
+        # class 10 (client disconnects mid-flight) is model class 10 under a timeout handler (side 4) and 11 without one (side 3)
+        calls = [cpair(cnat(11 if (c[0] == 10 and case["side"] == 3) else c[0]), cZ(c[1]), cnat(c[2])) for c in case["calls"]]
         if case["side"] in (5, 6):
             rows = obs.get("rows", [])
             rej, st = [r[0] == 1 for r in rows], [r[1] for r in rows]
@@ -468,6 +487,8 @@ def encode(case, obs):
 
 
 def nontrivial(case, obs):
+    if case["kind"] == "c":
+        return obs.get("together", 0) >= 2
     if case["kind"] == "m":
         return len({c[0] for c in case["calls"]}) >= 2
     if case["kind"] == "r":
@@ -479,6 +500,8 @@ def nontrivial(case, obs):
 
 
 def bucket(case, obs):
+    if case["kind"] == "c":
+        return ["kind:c", "conc:g=%d" % case["g"], "conc:together=%s" % (obs.get("together", 0) >= case["g"]), "conc:let_in=%d" % obs.get("let_in", -1)]
     if case["kind"] == "m":
         rej = obs.get("rej") or [(r[0] if case["side"] in (5, 6) else 1 - r[1]) for r in obs.get("rows", [])]
         out = ["kind:m", "m:side=%d" % case["side"], "m:cutoff=%s" % any(rej), "m:names=%d" % len({c[2] for c in case["calls"]})]
@@ -504,6 +527,10 @@ def bucket(case, obs):
 
 
 def explain(case, obs):
+    if case["kind"] == "c":
+        return ("g goroutines inside googleBreaker.accept at once on a breaker whose drop ratio is positive, every draw being coin 0 "
+                "(the first draw held inside Proba.TrueOnProba until the others are inside too): some caller was let in -- each "
+                "caller must get its own draw (c01_every_caller_draws)")
     if case["kind"] == "m":
         return ("mixed stream (side 0 client / 1 server unary / 2 server stream breaker interceptor over full method names; 3 / 4 the "
                 "HTTP engine's default chain with Config.Timeout 0 / > 0 over routes) on a frozen clock: a call was cut off although "
